@@ -246,7 +246,8 @@ fn get_rustfmt_info(args: &[String]) -> Result<i32, io::Error> {
     if result.success() {
         Ok(SUCCESS)
     } else {
-        Ok(result.code().unwrap_or(SUCCESS))
+        // No exit code means the process was terminated by a signal: that is a failure.
+        Ok(result.code().unwrap_or(FAILURE))
     }
 }
 
@@ -522,7 +523,9 @@ fn run_rustfmt(
 
     Ok(status
         .iter()
-        .filter_map(|s| if s.success() { None } else { s.code() })
+        .filter(|s| !s.success())
+        // No exit code means the process was terminated by a signal: that is a failure.
+        .map(|s| s.code().unwrap_or(FAILURE))
         .next()
         .unwrap_or(SUCCESS))
 }
